@@ -67,6 +67,9 @@ MEMBERS = [
      ("shift_by{s}", [("amount", "pos"), ("times", "opt")])),
     ("    def ratio_of{s}(self, part: float, whole: float = 1.0) -> float:\n        '''Ratio.'''\n        return part / whole\n",
      ("ratio_of{s}", [("part", "pos"), ("whole", "opt")])),
+    # inherited public methods overridden without a docstring of their own: the description is the inherited one (inspect.getdoc)
+    ("    def lock(self) -> None:\n        super().lock()\n", "override:lock"),
+    ("    async def flush(self, return_exceptions: bool = False) -> None:\n        await super().flush(return_exceptions)\n", "override:flush"),
 ]
 
 NB = 64
@@ -113,6 +116,13 @@ def build_class(case: dict):
         src += tmpl.format(s=s) + "\n"
         if entry == "attr":
             continue      # a plain class attribute: no command, and no effect on the other commands
+        if isinstance(entry, str) and entry.startswith("override:"):
+            import inspect
+            name = entry.split(":", 1)[1]
+            doc = inspect.getdoc(getattr(base, name)) or ""
+            if doc.strip():
+                docs[name] = doc.strip().splitlines()[0]
+            continue
         if entry is not None:
             table[entry[0].format(s=s)] = entry[1]
             m = re.search(r"\'\'\'(.+?)\'\'\'", tmpl)
@@ -120,9 +130,14 @@ def build_class(case: dict):
                 docs[entry[0].format(s=s)] = m.group(1)
         else:
             private.append(re.search(r"def (_\w+)", tmpl.format(s=s)).group(1))  # type: ignore[union-attr]
-    ns: Dict[str, Any] = {"Base": base, "__name__": "vt_generated_pool_module"}
-    exec(compile(src, "<generated pool subclass>", "exec"), ns)
-    return ns["GenPool"], table, private, docs
+    # a real (importable-by-name) module, as a user's pool subclass lives in one: inspect.getdoc() resolves inherited docstrings through it
+    import sys
+    import types
+    mod = types.ModuleType("vt_generated_pool_module")
+    mod.__dict__["Base"] = base
+    sys.modules["vt_generated_pool_module"] = mod
+    exec(compile(src, "<generated pool subclass>", "exec"), mod.__dict__)
+    return mod.__dict__["GenPool"], table, private, docs
 
 
 def norm(text: str) -> str:
@@ -145,7 +160,7 @@ class C16Engine(Engine):
             "subclass, or width < 40 or > 200. Distinct = case hash.")
     assumptions = ["the session is driven in-process through a real asyncio.StreamReader and a recording writer (vt/ctl/harness.py)",
                    "API table written from the documentation, independent of inspect.getmembers"]
-    bounds = {"widths": "1..1000", "generated members": "<=4 of 21 templates", "subclass depth": "<=2"}
+    bounds = {"widths": "1..1000", "generated members": "<=4 of 23 templates", "subclass depth": "<=2"}
 
     def strategies(self, tier: str):
         return [("default", st.binary(min_size=NB, max_size=NB).map(decode), 1200 if tier == "quick" else 30000)]
